@@ -1780,7 +1780,22 @@ class Interp:
         rec(0, st, [])
         return results
 
+    _nofork = 0
+
     def ex_IfExp(self, n, st):
+        if self._nofork:
+            # inside a comprehension element: keep the choice symbolic (the
+            # element is evaluated per value afterwards)
+            r = [[x for x in self.eval(e, st) if x[2] is None]
+                 for e in (n.test, n.body, n.orelse)]
+            if all(len(x) == 1 for x in r):
+                c, a, b = (x[0][1] for x in r)
+                tv = truth(c, st)
+                if tv is True:
+                    return [(st, a, None)]
+                if tv is False:
+                    return [(st, b, None)]
+                return [(st, ('ifexp', c, a, b), None)]
         outs, raises = self.branch(n.test, st)
         res = [(r[0], None, r[2]) for r in raises]
         for s2, b in outs:
@@ -2007,7 +2022,8 @@ class Interp:
                     iters.append(itx)
                 else:
                     itx = it
-                rr = self.assign(g.target, ('elem', itx, lid), inner, n)
+                rr = self.assign(g.target, ('elem', itx, lid if gi == 0
+                                            else (lid, gi)), inner, n)
                 inner = rr[0][0]
                 conds = []
                 for c in g.ifs:
@@ -2022,20 +2038,24 @@ class Interp:
                 out.append((s2, fresh('comp'), None))
                 continue
             vals = []
-            for e in elts:
-                r = [x for x in self.eval(e, inner) if x[2] is None]
-                if len(r) != 1:
-                    ok = False
-                    break
-                inner = r[0][0]
-                vals.append(r[0][1])
+            self._nofork += 1
+            try:
+                for e in elts:
+                    r = [x for x in self.eval(e, inner) if x[2] is None]
+                    if len(r) != 1:
+                        ok = False
+                        break
+                    inner = r[0][0]
+                    vals.append(r[0][1])
+            finally:
+                self._nofork -= 1
             if not ok:
                 out.append((s2, fresh('comp'), None))
                 continue
             t = ('comp', ckind, tuple(vals), tuple(iters), lid,
                  tuple(allconds))
             folded = self._fold_comp(ckind, vals, iters, lid, allconds) \
-                if not inner.trace and len(n.generators) == 1 else None
+                if not inner.trace else None
             if folded is not None:
                 out.append((s2, folded, None))
                 continue
@@ -2115,23 +2135,33 @@ class Interp:
         (`{n: b'\\0' * n for n in range(8)}`)."""
         if ckind == 'gen':
             return None
-        ok, seq = try_py(iters[0])
-        if not ok:
-            return None
-        try:
-            seq = list(seq)
-        except TypeError:
-            return None
-        if len(seq) > 64:
-            return None
-        elem = ('elem', iters[0], lid)
-        rows = []
-        for x in seq:
+        import itertools
+        seqs = []
+        for it_ in iters:
+            ok, seq = try_py(it_)
+            if not ok:
+                return None
             try:
-                cx = from_py(x)
+                seqs.append(list(seq))
+            except TypeError:
+                return None
+        total = 1
+        for q in seqs:
+            total *= max(1, len(q))
+        if total > 64:
+            return None
+        # (several generators: the iterables must not depend on each other,
+        # which holds when each folded to a constant on its own)
+        elems = [('elem', it_, lid if gi == 0 else (lid, gi))
+                 for gi, it_ in enumerate(iters)]
+        if len(set(elems)) != len(elems):
+            return None      # the same sequence twice: cannot tell them apart
+        rows = []
+        for combo in itertools.product(*seqs):
+            try:
+                env = {e: from_py(x) for e, x in zip(elems, combo)}
             except Exception:
                 return None
-            env = {elem: cx}
             keep = True
             for c in conds:
                 tv = truth(subst_fold(c, env))
@@ -2140,17 +2170,17 @@ class Interp:
                 keep = keep and tv
             if not keep:
                 continue
-            row = [subst_fold(v, env) for v in vals]
-            if not all(is_const(r) for r in row):
+            row = [try_py(subst_fold(v, env)) for v in vals]
+            if not all(okv for okv, _ in row):
                 return None
-            rows.append(row)
+            rows.append([pv for _, pv in row])
         try:
             if ckind == 'list':
-                return from_py([r[0][1] for r in rows])
+                return from_py([r[0] for r in rows])
             if ckind == 'set':
-                return from_py({r[0][1] for r in rows})
+                return from_py({r[0] for r in rows})
             if ckind == 'dict':
-                return from_py({r[0][1]: r[1][1] for r in rows})
+                return from_py({r[0]: r[1] for r in rows})
         except Exception:
             return None
         return None
@@ -2462,6 +2492,22 @@ class Interp:
                         return [(st, v, None)]
                 if all(is_const(a) for a, _ in recv[1]):
                     return [(st, args[1] if len(args) > 1 else NONE, None)]
+            if meth == 'get' and args and not is_const(args[0]) and \
+                    0 < len(recv[1]) <= 6 and _is_closed(recv) and \
+                    all(is_const(v) for _, v in recv[1]):
+                # a small constant table looked up with an unknown key: one
+                # outcome per entry (key == entry key) and the default
+                out = []
+                for a, v in recv[1]:
+                    s3 = st.copy()
+                    self.assume(s3, ('cmp', '==', args[0], a), True)
+                    out.append((s3, v, None))
+                    self._count()
+                s4 = st.copy()
+                for a, _ in recv[1]:
+                    self.assume(s4, ('cmp', '==', args[0], a), False)
+                out.append((s4, args[1] if len(args) > 1 else NONE, None))
+                return out
             if meth in ('keys', 'values', 'items') and not args:
                 if meth == 'keys':
                     return [(st, ('tuple', tuple(a for a, _ in recv[1])),
@@ -2622,8 +2668,11 @@ def subst_fold(t, mapping):
     def go(x):
         if x in mapping:
             return mapping[x]
-        if not isinstance(x, tuple) or not x or not isinstance(x[0], str):
+        if not isinstance(x, tuple) or not x:
             return x
+        if not isinstance(x[0], str):
+            # a plain sequence of terms (elements of a tuple / list / dict)
+            return tuple(go(y) if isinstance(y, tuple) else y for y in x)
         k = x[0]
         if k == 'binop':
             return Interp.binop(it, x[1], go(x[2]), go(x[3]))
